@@ -1,12 +1,15 @@
 """C17 - every lookup-table entry is internally consistent (structural clauses)."""
 from ..rules_tables import Tables, grammar, T1_line_count, T5_T6_cost_depth
+from ..rules_flow import Flow
+from ..rules_k import K3_class_tables
 
 
 def run(tree, rep, tier):
     T = Tables(tree)
     T.inventory(rep)
     files = T.stab  # all stabilizer files incl. stray ones
-    T1_line_count(rep, T, files)
+    K = K3_class_tables(rep, Flow(tree))   # K(n) as the classifier's tables define it (must equal 2/5/18/93/760)
+    T1_line_count(rep, T, files, K)
     grammar(rep, T, files, rules=("T2", "T3"))
     T5_T6_cost_depth(rep, T, files)
     rep.rules["T1"]["floor"] = 20
